@@ -44,9 +44,10 @@ pub fn history(regs0: &[u8], prog: &[u8], with_coords: bool) -> Out {
     for ins in prog.chunks(4) {
         let (opc, d, s1, s2) = (ins[0] % 16, ins[1] as usize % NREG, ins[2] as usize % NREG, ins[3] as usize % NREG);
         let imm = ins[3];
+        let form = ins[1] as usize / NREG; // 0..42: which operator form this step uses (the model ignores it)
         let res: EdwardsPoint = match opc {
-            0 => &r[s1] + &r[s2],
-            1 => &r[s1] - &r[s2],
+            0 => crate::add_form!(r[s1], r[s2], form),
+            1 => crate::sub_form!(r[s1], r[s2], form),
             2 => {
                 if imm & 1 == 0 {
                     -&r[s1]
@@ -54,18 +55,10 @@ pub fn history(regs0: &[u8], prog: &[u8], with_coords: bool) -> Out {
                     -r[s1]
                 }
             }
-            3 => &r[s1] + &r[s1],
+            3 => crate::add_form!(r[s1], r[s1], form),
             4 => r[s1].mul_by_cofactor(),
-            5 => {
-                let mut t = r[d];
-                t += &r[s1];
-                t
-            }
-            6 => {
-                let mut t = r[d];
-                t -= &r[s1];
-                t
-            }
+            5 => crate::add_form!(r[d], r[s1], 4 + form % 2),
+            6 => crate::sub_form!(r[d], r[s1], 4 + form % 2),
             7 => {
                 let sel: Vec<EdwardsPoint> = (0..NREG).filter(|i| imm >> i & 1 == 1).map(|i| r[i]).collect();
                 if imm & 0x40 == 0 {
@@ -76,11 +69,7 @@ pub fn history(regs0: &[u8], prog: &[u8], with_coords: bool) -> Out {
             }
             8 => {
                 let k = Scalar::from(imm);
-                if imm & 1 == 0 {
-                    &r[s1] * &k
-                } else {
-                    &k * &r[s1]
-                }
+                crate::mul_form!(r[s1], k, form)
             }
             9 => &r[s1] + &EIGHT_TORSION[imm as usize % 8],
             10 => match r[s1].compress().decompress() {
@@ -95,8 +84,8 @@ pub fn history(regs0: &[u8], prog: &[u8], with_coords: bool) -> Out {
                     EdwardsPoint::default()
                 }
             }
-            13 => r[s1] + r[s2], // by-value operator forms
-            14 => r[s1] - r[s2],
+            13 => crate::add_form!(r[s1], r[s2], form + 3),
+            14 => crate::sub_form!(r[s1], r[s2], form + 3),
             _ => {
                 let mut t = r[s1];
                 t.conditional_assign(&r[s2], Choice::from(ins[1] >> 7));
